@@ -46,11 +46,17 @@ inductive Iter where
   | rep (c : Term)                           -- `itertools.repeat(c)`
   | cycle (cur all : List Term)              -- `itertools.cycle(all)`, `cur` = rest of the current round
   | chain (a b : Iter)                       -- `itertools.chain(a, b)`
-  | map1 (f : Name) (a : Iter)               -- `map(f, a)`
-  | mapL (f : Name) (c : Term) (a : Iter)    -- `map(lambda x: f(c, x), a)`
-  | mapR (f : Name) (a : Iter) (c : Term)    -- `map(lambda x: f(x, c), a)`
+  | mapc (f : Name) (pre post : List Term) (a : Iter)
+                                             -- `map(lambda x: f(*pre, x, *post), a)` / `(f(*pre, x, *post) for x in a)`
   | map2 (f : Name) (a b : Iter)             -- `map(f, a, b)`
   deriving Repr, Inhabited
+
+/-- `map(f, a)` -/
+abbrev Iter.map1 (f : Name) (a : Iter) : Iter := .mapc f [] [] a
+/-- `map(lambda x: f(c, x), a)` -/
+abbrev Iter.mapL (f : Name) (c : Term) (a : Iter) : Iter := .mapc f [c] [] a
+/-- `map(lambda x: f(x, c), a)` -/
+abbrev Iter.mapR (f : Name) (a : Iter) (c : Term) : Iter := .mapc f [] [c] a
 
 /-- `next(it)`: the item (or `none` = StopIteration) and the iterator state afterwards.
     `map(f, a, b)` asks `a` first and does not touch `b` when `a` has ended (CPython `map_next`);
@@ -66,18 +72,10 @@ def Iter.step : Iter → Option Term × Iter
     match a.step with
     | (some x, a') => (some x, .chain a' b)
     | (none, _) => b.step          -- `chain` drops an exhausted iterator for good
-  | .map1 f a =>
+  | .mapc f pre post a =>
     match a.step with
-    | (some x, a') => (some (.app f [x]), .map1 f a')
-    | (none, a') => (none, .map1 f a')
-  | .mapL f c a =>
-    match a.step with
-    | (some x, a') => (some (.app f [c, x]), .mapL f c a')
-    | (none, a') => (none, .mapL f c a')
-  | .mapR f a c =>
-    match a.step with
-    | (some x, a') => (some (.app f [x, c]), .mapR f a' c)
-    | (none, a') => (none, .mapR f a' c)
+    | (some x, a') => (some (.app f (pre ++ x :: post)), .mapc f pre post a')
+    | (none, a') => (none, .mapc f pre post a')
   | .map2 f a b =>
     match a.step with
     | (none, a') => (none, .map2 f a' b)
@@ -105,9 +103,7 @@ def Iter.unread : Iter → List (Nat × Nat)
   | .rep _ => []
   | .cycle _ _ => []
   | .chain a b => a.unread ++ b.unread
-  | .map1 _ a => a.unread
-  | .mapL _ _ a => a.unread
-  | .mapR _ a _ => a.unread
+  | .mapc _ _ _ a => a.unread
   | .map2 _ a b => a.unread ++ b.unread
 
 /-! ## The operator table: `OpMethod` and the metaclass -/
@@ -300,5 +296,147 @@ def evalPy (tbl : List (Name × Dunder)) : Py → Except Err Val
     match streamInit1 vo with
     | .iterable _ io => pure (.iterable true (.chain it io))
     | _ => .error .typeError
+
+end ALV.C01
+
+/-! ## `lazy_misc.elementwise` — the broadcast decorator -/
+
+namespace ALV.C01
+
+/-- Classes of objects handed to a broadcast function, as far as the wrapper's tests tell them apart. -/
+inductive CKind where
+  | scalar | str
+  | list | tuple | set | frozenset | deque                              -- fall through to `type_arg(data)`
+  | generator | range | enumerate | zip | zipLongest | map | filter     -- `SOME_GEN_TYPES`
+  | stream | streamSub                                                  -- `Stream` and its subclasses
+  deriving DecidableEq, Repr, Inhabited
+
+/-- `isinstance(arg, Iterable)` -/
+def CKind.isIterable : CKind → Bool
+  | .scalar => false
+  | _ => true
+
+/-- `isinstance(arg, STR_TYPES)` -/
+def CKind.isStr : CKind → Bool
+  | .str => true
+  | _ => false
+
+/-- `isinstance(arg, SOME_GEN_TYPES)` -/
+def CKind.isSomeGen : CKind → Bool
+  | .generator | .range | .enumerate | .zip | .zipLongest | .map | .filter => true
+  | _ => false
+
+/-- `issubclass(type(arg), Stream)` -/
+def CKind.isStream : CKind → Bool
+  | .stream | .streamSub => true
+  | _ => false
+
+/-- the argument the wrapper looks at -/
+inductive BArg where
+  | obj (k : CKind) (self : Term)                     -- scalar / str: handed to the function as it is
+  | sized (k : CKind) (tag : Nat) (xs : List Term)    -- list, tuple, set, frozenset, deque: a finite container
+  | lazy (k : CKind) (src : Iter)                     -- generators & co, Streams: `iter(arg)` is `src`
+  deriving Repr, Inhabited
+
+def BArg.kind : BArg → CKind
+  | .obj k _ => k
+  | .sized k _ _ => k
+  | .lazy k _ => k
+
+/-- `iter(arg)` -/
+def BArg.iter : BArg → Iter
+  | .obj _ _ => .list 0 []
+  | .sized _ t xs => .list t xs
+  | .lazy _ src => src
+
+/-- the object itself (scalar path) -/
+def BArg.self : BArg → Term
+  | .obj _ c => c
+  | _ => default
+
+/-- how often `type_arg(data)` calls `next` on a container of this size: all items and the final StopIteration -/
+def BArg.drainFuel : BArg → Nat
+  | .sized _ _ xs => xs.length + 1
+  | _ => 0
+
+/-- a decorated function being called: `elementwise(dname, dpos)(f)(*args, **kwargs)`; the slot of
+    `args` / `kwargs` that holds the argument `arg` contains a placeholder term -/
+structure ECall where
+  f : Name
+  dname : Name
+  dpos : Option Nat
+  args : List Term
+  kwargs : List (Name × Term)
+  arg : BArg
+  deriving Repr, Inhabited
+
+inductive BOut where
+  | value (t : Term)                                  -- `func(*args, **kwargs)`
+  | gen (it : Iter)                                   -- the generator expression `data`, not started
+  | stream (it : Iter)                                -- `Stream(data)`
+  | cast (k : CKind) (items : List Term) (left : Iter) -- `type_arg(data)`: `data` consumed to its end
+  | keyError                                          -- `kwargs[name]` failed
+  deriving Repr, Inhabited
+
+/-- keyword arguments inside a term: a marker `kw:<name>` followed by the value -/
+def kwMarker (k : Name) : Term := .app (n!"kw:" ++ k) []
+
+def kwFlat : List (Name × Term) → List Term
+  | [] => []
+  | (k, v) :: r => kwMarker k :: v :: kwFlat r
+
+/-- `dict(it.chain(iteritems(kwargs), [(name, x)]))` as (terms before x, terms after x); `name` is a key -/
+def kwSplit (name : Name) : List (Name × Term) → List Term × List Term
+  | [] => ([kwMarker name], [])
+  | (k, v) :: r =>
+    if k == name then ([kwMarker name], kwFlat r)
+    else
+      let s := kwSplit name r
+      (kwMarker k :: v :: s.1, s.2)
+
+/-- decorator level: `if (name == "") and (pos is None): pos = 0` -/
+def ECall.pos (c : ECall) : Option Nat :=
+  if c.dname == [] && c.dpos.isNone then some 0 else c.dpos
+
+/-- `positional = (pos is not None) and (pos < len(args))` -/
+def ECall.isPositional (c : ECall) : Bool :=
+  match c.pos with
+  | some p => decide (p < c.args.length)
+  | none => false
+
+/-- the generator expression
+    `data = (func(*(args[:pos] + (x,) + args[pos+1:]), **kwargs) for x in arg)`  resp.
+    `data = (func(*args, **dict(it.chain(iteritems(kwargs), [(name, x)]))) for x in arg)` -/
+def ECall.data (c : ECall) : Iter :=
+  if c.isPositional then
+    let p := c.pos.getD 0
+    .mapc c.f (c.args.take p) (c.args.drop (p + 1) ++ kwFlat c.kwargs) c.arg.iter
+  else
+    let s := kwSplit c.dname c.kwargs
+    .mapc c.f (c.args ++ s.1) s.2 c.arg.iter
+
+/-- `func(*args, **kwargs)`: the placeholder slot holds the object itself -/
+def ECall.plainCall (c : ECall) : Term :=
+  if c.isPositional then
+    let p := c.pos.getD 0
+    .app c.f (c.args.take p ++ c.arg.self :: (c.args.drop (p + 1) ++ kwFlat c.kwargs))
+  else
+    let s := kwSplit c.dname c.kwargs
+    .app c.f ((c.args ++ s.1) ++ c.arg.self :: s.2)
+
+/-- the wrapper returned by `elementwise(name, pos)(func)` -/
+def elementwise (c : ECall) : BOut :=
+  -- `arg = args[pos] if positional else kwargs[name]`
+  if !c.isPositional && !(c.kwargs.any fun kv => kv.1 == c.dname) then .keyError
+  else
+    let k := c.arg.kind
+    if k.isIterable && !k.isStr then
+      let data := c.data
+      if k.isSomeGen then .gen data                        -- "Generators should still return generators"
+      else if k.isStream then .stream data                 -- `Stream(data)`
+      else
+        let r := data.runS c.arg.drainFuel                 -- `type_arg(data)`: tuple, list, set, deque, ...
+        .cast k r.1 r.2
+    else .value c.plainCall                                -- `return func(*args, **kwargs)`
 
 end ALV.C01
